@@ -55,6 +55,7 @@ Fixpoint seval (c : hcond) (sh : shape) : option bool :=
   | CNot c => option_map negb (seval c sh)
   | COr a b => match seval a sh with Some true => Some true | Some false => seval b sh | None => None end
   | CAnd a b => match seval a sh with Some true => seval b sh | Some false => Some false | None => None end
+  | CAnyItem _ _ => None
   end.
 Fixpoint sleaf (h : hook) (sh : shape) : option hret :=
   match h with
@@ -273,7 +274,7 @@ Qed.
 
 Lemma seval_sound c j : forall b, seval c (shape_of j) = Some b -> ceval c j None = Ok b.
 Proof.
-  induction c as [e|e|e|e|k e|e s|e|c IH|a IHa b IHb|a IHa b IHb]; cbn [seval ceval]; intros r H; try discriminate.
+  induction c as [e|e|e|e|k e|e s|e|c IH|a IHa b IHb|a IHa b IHb|e0 c0 IH0]; cbn [seval ceval]; intros r H; try discriminate.
   - destruct (is_hobj e) eqn:E; [apply is_hobj_eq in E; subst e; cbn [heval bind]; inversion H; destruct j; reflexivity|].
     destruct (ktest_sound _ _ _ _ H) as [x [Hx Y]]. rewrite Hx. cbn [bind]. rewrite <- Y. destruct x; reflexivity.
   - destruct (is_hobj e) eqn:E; [apply is_hobj_eq in E; subst e; cbn [heval bind]; inversion H; destruct j; reflexivity|].
@@ -329,7 +330,7 @@ Lemma seval_mono c kvs kvs' : Refines (cprobes c) kvs kvs' ->
   (forall r, seval c (ShObj kvs) = Some r -> seval c (ShObj kvs') = Some r) /\
   (forall r, seval c (ShArr (Some (ShObj kvs))) = Some r -> seval c (ShArr (Some (ShObj kvs'))) = Some r).
 Proof.
-  induction c as [e|e|e|e|k e|e s|e|c IH|a IHa b IHb|a IHa b IHb]; cbn [seval cprobes]; intros [RM RV].
+  induction c as [e|e|e|e|k e|e s|e|c IH|a IHa b IHb|a IHa b IHb|e0 c0 IH0]; cbn [seval cprobes]; intros [RM RV].
   - split; intros r; [|destruct (is_hobj e); [auto|]; unfold ktest; destruct (key_of e); auto].
     destruct (is_hobj e); [auto|]. apply ktest_mono; [exact RV|]. intros x y L N. destruct x as [| |[?|]| | |], y as [| |[?|]| | |]; cbn in L; try discriminate; try reflexivity; contradiction.
   - split; intros r; [|destruct (is_hobj e); [auto|]; unfold ktest; destruct (key_of e); auto].
@@ -357,6 +358,7 @@ Proof.
     destruct (IHb (conj (fun k I => RM k (in_or_app _ _ _ (or_intror I))) RV)) as [B1 B2]. split; intros r H.
     + destruct (seval a (ShObj kvs)) as [[|]|] eqn:E; [| |discriminate]; rewrite (A1 _ eq_refl); auto.
     + destruct (seval a (ShArr (Some (ShObj kvs)))) as [[|]|] eqn:E; [| |discriminate]; rewrite (A2 _ eq_refl); auto.
+  - split; intros r; discriminate.
 Qed.
 Lemma sleaf_mono h kvs kvs' : Refines (hprobes h) kvs kvs' ->
   (forall r, sleaf h (ShObj kvs) = Some r -> sleaf h (ShObj kvs') = Some r) /\
@@ -374,7 +376,7 @@ Qed.
 (* without a probe of the first element the leaf does not depend on it *)
 Lemma seval_idx_free c a b : cidx_free c = true -> seval c (ShArr (Some a)) = seval c (ShArr (Some b)).
 Proof.
-  induction c as [e|e|e|e|k e|e s|e|c IH|x IHx y IHy|x IHx y IHy]; cbn [seval cidx_free]; intros H; try reflexivity.
+  induction c as [e|e|e|e|k e|e s|e|c IH|x IHx y IHy|x IHx y IHy|e0 c0 IH0]; cbn [seval cidx_free]; intros H; try reflexivity.
   - destruct (is_hobj e); [reflexivity|]. apply negb_true_iff in H. rewrite H. reflexivity.
   - rewrite (IH H). reflexivity.
   - apply andb_true_iff in H. destruct H as [H1 H2]. rewrite (IHx H1), (IHy H2). reflexivity.
@@ -445,7 +447,7 @@ Proof.
   destruct body as [| | |e t'|e| | |c a b|]; try discriminate.
   - destruct e; try discriminate. eauto.
   - destruct e; try discriminate. eauto.
-  - destruct c as [|e| | | | | | | |]; try discriminate. destruct e; try discriminate.
+  - destruct c as [|e| | | | | | | | |]; try discriminate. destruct e; try discriminate.
     destruct a as [|e| | | | | | |]; try discriminate. destruct e; try discriminate.
     destruct b as [| | |e t'| | | | |]; try discriminate. destruct e; try discriminate. destruct t'; try discriminate. eauto 6.
 Qed.
